@@ -217,6 +217,16 @@ pub fn plain_ops<T>(c: &CaseIn) -> Option<Value>
 where
     T: Serialize + DeserializeOwned + Debug + PartialEq + ToPlain + FromPlain,
 {
+    if c.op == "plain-text" {
+        // the text parser alone: `doc` is the PLAIN text itself
+        return Some(match T::from_plain(&c.doc) {
+            Ok(v) => {
+                let dbg = format!("{:?}", v);
+                j!({"ok": json::to_string(&v).unwrap_or_default(), "text": v.to_plain(), "debug_head": dbg.chars().take(24).collect::<String>()})
+            }
+            Err(_) => j!({"err": true}),
+        });
+    }
     if c.op != "plain" {
         return None;
     }
